@@ -1,7 +1,7 @@
 (* Extraction of the executable model for the correspondence check.
    Only ExtrOcamlBasic: Z, positive, N, nat stay Coq datatypes. *)
 Require Import ExtrOcamlBasic.
-From X86 Require Addr.Run Paging.EntryRun Machine.Run Tables.Run Codec.Run Paging.Run Paging.TreeRun.
+From X86 Require Addr.Run Paging.EntryRun Machine.Run Tables.Run Codec.Run Paging.Run Paging.TreeRun Paging.RecNew.
 Extraction Language OCaml.
 Definition run_addr := Addr.Run.run_addr.
 Definition run_pte := Paging.EntryRun.run_pte.
@@ -10,4 +10,5 @@ Definition run_tbl := Tables.Run.run_tbl.
 Definition run_codec := Codec.Run.run_codec.
 Definition run_map := Paging.Run.run_map.
 Definition run_ptree := Paging.TreeRun.run_ptree.
-Extraction "model.ml" run_addr run_pte run_mach run_tbl run_codec run_map run_ptree.
+Definition run_rec := Paging.RecNew.run_rec.
+Extraction "model.ml" run_addr run_pte run_mach run_tbl run_codec run_map run_ptree run_rec.
